@@ -96,7 +96,7 @@ Lemma gen_steps : exists eff : ppstate -> option Z,
                            /\ (if snd (m_pass (eff s)) then fst s' else eff s') = fst (m_pass (eff s)))
   /\ (forall s, exists s1, g_skip pp_row_start s = Some s1 /\ eff s1 = eff s)
   /\ (forall s, fst (sk_after_loop pp_post s) = eff s).
-Proof. first [ brute (@fst (option Z) (option Z)) | brute (@snd (option Z) (option Z)) ]. Qed.
+Proof. first [ solve [brute (@fst (option Z) (option Z))] | solve [brute (@snd (option Z) (option Z))] ]. Qed.
 
 Lemma gen_inactive : forall t c, pp_inactive t c = negb (t || c).
 Proof. intros [|] [|]; reflexivity. Qed.
